@@ -1,13 +1,16 @@
 (* C18/Model.v -- executable model of ak/xlsread.py:
-     cell converters (25-161), XlsObject construction / origin recording /
-     get_attr_origin (167-316), binding of rules to the title row incl. range
-     detection (457-566), XlsTableReader.iter_table (580-662).
+     cell converters (25-161), _coord_sort_key (167-171), XlsObject construction / origin
+     recording / get_attr_origin (174-323), binding of rules to the title row incl. range
+     detection (464-573), XlsTableReader.iter_table (587-669)
+   (line numbers of the source WITH the fix of finding origin-range-string-sort, which adds 7 lines
+   at 167; the model is of that repaired code).
    A worksheet is a list of rows of cell values ([cval]); the cell in row r,
    column c (0-based) has the openpyxl coordinate  col_name c ++ dec (r+1).
    Strings are lists of code points.  Exceptions are data ([res]).
    The literal tables (CellBool sets, default none-values, origin markers, the
    'blank first' literal, '*') are regenerated from the source on every run
-   (gen/C18_Consts.v).  No proofs in this file. *)
+   (gen/C18_Consts.v); the same extractor fails closed unless _coord_sort_key and the sorted(...)
+   call of get_attr_origin have exactly the modelled shape.  No proofs in this file. *)
 From Coq Require Import ZArith List Bool.
 From AK Require Import Common.Sx Common.Err C18.Base gen.C18_Consts.
 Import ListNotations.
@@ -513,8 +516,34 @@ Definition read_table (cf : config) (sh : list (list cval)) : list (option obj) 
 (* ------------------------------------------------------------------ *)
 (* XlsObject.get_attr_origin(attr_name, range_key, strict=...)         *)
 
+(* _coord_sort_key(coord):  col = coord.rstrip('0123456789')
+                            return len(col), col, int(coord[len(col):]) *)
+Definition is_digit (c : Z) : bool := (48 <=? c) && (c <=? 57).
+Fixpoint drop_digits (s : str) : str :=
+  match s with
+  | [] => []
+  | c :: r => if is_digit c then drop_digits r else s
+  end.
+Definition rstrip_digits (s : str) : str := rev (drop_digits (rev s)).
+(* int(text) of a string of ASCII digits.  int('') raises ValueError in python and is 0 here: a
+   coordinate always ends in its row number (LemmasRange.coord_key_spec), so this is never used *)
+Definition int_of_digits (s : str) : Z := fold_left (fun a c => 10 * a + (c - 48)) s 0.
+Definition coord_sort_key (s : str) : nat * str * Z :=
+  let col := rstrip_digits s in (length col, col, int_of_digits (skipn (length col) s)).
+(* python < on tuples (int, str, int) *)
+Definition key_ltb (a b : nat * str * Z) : bool :=
+  match a, b with
+  | (la, sa, na), (lb, sb, nb) =>
+      if Nat.ltb la lb then true else if Nat.ltb lb la then false
+      else if str_ltb sa sb then true else if str_ltb sb sa then false
+      else na <? nb
+  end.
+(* sorted(..., key=_coord_sort_key) is stable and only uses < on the keys *)
+Definition coord_leb (a b : str) : bool := negb (key_ltb (coord_sort_key b) (coord_sort_key a)).
+
+(* cells_coords = sorted(origins.values(), key=_coord_sort_key); "<first>:<last>" *)
 Definition range_text (d : list (str * (nat * nat))) : str :=
-  let coords := sort_strs (map (fun kv => coord_text (fst (snd kv)) (snd (snd kv))) d) in
+  let coords := sort_by coord_leb (map (fun kv => coord_text (fst (snd kv)) (snd (snd kv))) d) in
   match coords with
   | [] => marker_range_empty
   | [x] => x
